@@ -250,13 +250,23 @@ def run(ctx):
         TS = prog.require_func('snoopy_util_syslog_convert%sToStr' % kind)
         pi, ps = syslog_pairs(TI, True), syslog_pairs(TS, False)
         si, ss = {(n, v) for n, v, m in pi}, {(n, v) for n, v, m in ps}
-        chk.ob('T3', 'tables-agree[%s]' % kind, si == ss and len(si) >= 8, TI.where(), TI.name,
-               'name->value pairs differ between the two directions: only in ToInt %s, only in ToStr %s' % (
-                   sorted(si - ss), sorted(ss - si)),
-               how='%d identical pairs' % len(si & ss))
-        bij = len({n for n, v in si}) == len(si) and len({v for n, v in si}) == len(si)
-        chk.ob('T3', 'bijective[%s]' % kind, bij, TI.where(), TI.name, 'a name or a value occurs twice')
-        bad = [(n, m) for n, v, m in pi if m and m != 'LOG_' + n]
+        # the printed name of every value reads back as that value (the round trip of `snoopyctl conf`).  Further names
+        # that ...ToInt accepts are aliases: fine when they name a value that has a printed name, and when the
+        # documentation lists them (the option "takes the value its documentation gives")
+        aliases = si - ss
+        vals_s = {v for n, v in ss}
+        doc3 = open(ctx.path('etc/snoopy.ini.in')).read()
+        bad_alias = sorted((n, v) for n, v in aliases if v not in vals_s or not re.search(
+            r'(?<![A-Za-z0-9_])%s(?![A-Za-z0-9_])' % re.escape(n), doc3, re.I))
+        chk.ob('T3', 'tables-agree[%s]' % kind, ss <= si and len(ss) >= 8 and not bad_alias, TI.where(), TI.name,
+               'name->value pairs differ between the two directions: only in ToInt %s (neither a printed name nor a '
+               'documented alias of a printable value), only in ToStr %s' % (bad_alias, sorted(ss - si)),
+               how='%d pairs in both directions, %d documented alias(es)' % (len(si & ss), len(aliases)))
+        bij = len({n for n, v in ss}) == len(ss) and len({v for n, v in ss}) == len(ss) and len({n for n, v in si}) == len(si)
+        chk.ob('T3', 'bijective[%s]' % kind, bij, TI.where(), TI.name,
+               'a name is given two values, or a value is printed under two names')
+        canon = {n for n, v in ss}
+        bad = [(n, m) for n, v, m in pi if m and m != 'LOG_' + n and n in canon]
         chk.ob('T3', 'name-is-macro-suffix[%s]' % kind, not bad, TI.where(), TI.name,
                'name/macro mismatch: %s' % bad, how='every name X maps to LOG_X')
         # nothing but the table's values (and the not-found value) comes out of ...ToInt: a value computed from the text
